@@ -60,6 +60,7 @@ namespace Pistache::Http
     } while (0)
 
             std::ostream os(&buf);
+            os.imbue(std::locale::classic());
 
             OUT(os << version << " ");
             OUT(os << static_cast<int>(code));
@@ -83,6 +84,7 @@ namespace Pistache::Http
     } while (0)
 
             std::ostream os(&buf);
+            os.imbue(std::locale::classic());
 
             for (const auto& header : headers.list())
             {
@@ -107,6 +109,7 @@ namespace Pistache::Http
     } while (0)
 
             std::ostream os(&buf);
+            os.imbue(std::locale::classic());
             for (const auto& cookie : cookies)
             {
                 OUT(os << "Set-Cookie: ");
@@ -735,6 +738,7 @@ namespace Pistache::Http
         if (writeHeaders(response_.headers(), buf_))
         {
             std::ostream os(&buf_);
+            os.imbue(std::locale::classic());
             /* @Todo @Major:
      * Correctly handle non-keep alive requests
      * Do not put Keep-Alive if version == Http::11 and request.keepAlive ==
@@ -768,6 +772,7 @@ namespace Pistache::Http
             return 0;
 
         std::ostream os(&buf_);
+        os.imbue(std::locale::classic());
         os << std::hex << sz << crlf;
         os.write(data, sz);
         os << crlf;
@@ -799,6 +804,7 @@ namespace Pistache::Http
     void ResponseStream::ends()
     {
         std::ostream os(&buf_);
+        os.imbue(std::locale::classic());
         os << "0" << crlf;
         os << crlf;
 
@@ -939,6 +945,7 @@ namespace Pistache::Http
         try
         {
             std::ostream os(&buf_);
+            os.imbue(std::locale::classic());
 
 #define OUT(...)                                         \
     do                                                   \
@@ -1030,6 +1037,7 @@ namespace Pistache::Http
         auto* buf = writer.rdbuf();
 
         std::ostream os(buf);
+        os.imbue(std::locale::classic());
 
 #define OUT(...)                                         \
     do                                                   \
